@@ -97,6 +97,9 @@ pub struct Exec<'a> {
     pub virt: bool,
     /// number of records whose write was made to fail
     pub failed_writes: u32,
+    /// the hooks have counted every hit of the point "write" since the case began (fault mode):
+    /// lets an async writer thread be waited for, so that a failing write can be placed exactly
+    pub count_writes: bool,
 }
 
 impl<'a> Exec<'a> {
@@ -114,6 +117,23 @@ impl<'a> Exec<'a> {
             src: 0,
             virt,
             failed_writes: 0,
+            count_writes: false,
+        }
+    }
+
+    /// (async modes, `count_writes`) waits until the writer thread has handled every record sent
+    fn drain(&self) -> Result<(), String> {
+        let want = u64::from(self.seq);
+        let t0 = std::time::Instant::now();
+        loop {
+            let got = h().points.lock().unwrap_or_else(|p| p.into_inner()).counts.get("write").copied().unwrap_or(0);
+            if got >= want {
+                return Ok(());
+            }
+            if t0.elapsed() > std::time::Duration::from_secs(5) {
+                return Err(format!("the async writer thread handled {got} of {want} records within 5 s"));
+            }
+            std::thread::sleep(std::time::Duration::from_micros(200));
         }
     }
 
@@ -137,9 +157,12 @@ impl<'a> Exec<'a> {
                 sess.write(&p);
             }
             Op::FailWrite(len) => {
-                if self.cfg.mode.is_async() {
+                if self.cfg.mode.is_async() && !self.count_writes {
                     // the writer thread cannot be synchronised with the fault window
                     return self.apply(sess, &Op::Write(*len));
+                }
+                if self.cfg.mode.is_async() {
+                    self.drain()?;
                 }
                 let p = payload(self.src, self.seq, *len);
                 self.seq += 1;
@@ -155,6 +178,9 @@ impl<'a> Exec<'a> {
                 }
                 hh.set_mode(crate::hooks::MODE_FAULT);
                 sess.write(&p);
+                if self.cfg.mode.is_async() {
+                    self.drain()?;
+                }
                 hh.set_mode(prev);
                 self.failed_writes += 1;
             }
